@@ -758,11 +758,16 @@ def build_functions(sc: Scenario, broker: AsyncBroker) -> None:
         if is_async and lat:
             lines.append(f"    await _dep_lat({lat!r})")
         if nd.get("raise_open"):
-            lines.append(f"    _sc.trace.add('dep_raise', _d, dep={name!r})")
             # (the failure may be of any class - a connect that timed out, a lookup that failed)
             xc = {"TimeoutError": "TimeoutError", "asyncio.TimeoutError": "asyncio.TimeoutError", "ConnectionError": "ConnectionError",
                   "KeyError": "KeyError"}.get(nd.get("raise_open_exc") or "", "DepBoom")
-            lines.append(f"    raise {xc}({name!r})")
+            pad = ""
+            if nd.get("raise_open_toks") is not None:
+                # ... and only for some of the messages (the resource was not up yet when the first ones came)
+                lines.append(f"    if _d is not None and _sc.deliveries[_d]['tok'] in {set(nd['raise_open_toks'])!r}:")
+                pad = "    "
+            lines.append(f"    {pad}_sc.trace.add('dep_raise', _d, dep={name!r})")
+            lines.append(f"    {pad}raise {xc}({name!r})")
         lines.append(f"    _sc.trace.add('dep_open', _d, dep={name!r}, echo={echo}, subs={subs_v})")
         val = f"{{'dep': {name!r}, 'echo': {echo}, 'subs': {subs_v}}}"
         if style in ("plain_sync", "plain_async"):
